@@ -36,7 +36,7 @@ def strVariants (mode : Nat) (s : Bytes) : List Bytes :=
 
 def errChar : Err → Char
   | .eof => 'f' | .varint => 'v' | .stream => 's' | .badlen => 'l' | .toolarge => 'L'
-  | .pubkey => 'k' | .sig => 'g' | .pfx => 'x' | .length => 'n' | .checksum => 'c' | .other => 'o'
+  | .pubkey => 'k' | .sig => 'u' | .pfx => 'u' | .length => 'u' | .checksum => 'u' | .other => 'u'
 
 /-- outcome class of a variant relative to the ticket the unaltered encoding decodes to -/
 def classify (orig : Outcome Ticket) (r : Outcome Ticket) : Char :=
